@@ -526,6 +526,16 @@ def run_scaled(case):
     require(same_float(float(got), float(exp)), 'a Dtype scale must multiply the decoded value', fmt=name, scale=scale, code=hex(code), got=got, expected=exp)
     arr = bs.Array(d, o)
     require(same_float(float(arr[0]), float(exp)), 'scaled Array item differs', got=arr[0], expected=exp)
+    # the same data under this scale, no scale and another scale, one after the other, read back in bulk: each Array decodes with its own scale
+    code2 = (code * 7 + 3) % (1 << nb)
+    two = o + bs.Bits(uint=code2, length=nb)
+    for sc in (scale, None, 4 if scale != 4 else 8, scale):
+        dd = bs.Dtype(name, scale=sc) if sc is not None else bs.Dtype(name)
+        a2 = bs.Array(dd, two)
+        want = [dec(code) * (sc if sc is not None else 1), dec(code2) * (sc if sc is not None else 1)]
+        for how, got2 in (('tolist', a2.tolist()), ('iteration', list(a2)), ('items', [a2[0], a2[1]])):
+            require(len(got2) == 2 and all(same_float(float(g), float(w)) for g, w in zip(got2, want)), f'Array {how} does not apply the scale of its own dtype', fmt=name, scale=sc,
+                    got=got2, expected=want)
     # encoding divides by the scale first
     if not math.isnan(x):
         ee = enc(x / scale)
